@@ -9,19 +9,23 @@ EXTENDS VrfRtcMech, VrfRtcDom
 CONSTANTS MaxEvents, Defer, Pool
 
 VARIABLES nev
-mcvars == <<cfg, up, ceOn, nin, cein, loc, vrfs, mem, wait, eor, deadline, now, wN1, wN2, wCE, nev>>
+mcvars == <<cfg, up, ceOn, nin, cein, loc, vrfs, mem, wait, eor, deadline, now, wN1, wN2, wN3, wCE, nev>>
 
 (* alphabets by name *)
 RtSets == CASE Pool = "a" -> {{}, {"rt1"}, {"rt1", "rt2"}, {"rt3"}}
             [] Pool = "b" -> {{"rt1", "rt2"}, {"rt2", "rt3"}, {"nt1"}, {"rt3"}}
-            [] Pool = "c" -> {{"rt1"}, {"rt3"}}
+            [] Pool \in {"c", "d"} -> {{"rt1"}, {"rt3"}}
 MemSet == CASE Pool = "a" -> {Mem(65000, "rt1", 0), Mem(65000, "rt2", 0), Mem(0, "def", 0)}
             [] Pool = "b" -> {Mem(65000, "rt2", 0), Mem(65009, "rt2", 0), Mem(65000, "rt3", 1), Mem(0, "def", 0)}
             [] Pool = "c" -> {Mem(65000, "rt1", 0)}
+            [] Pool = "d" -> {Mem(0, "def", 0)}
 VrfSet == CASE Pool = "a" -> {V1a, V2a}
             [] Pool = "b" -> {V1a, V1b, V2b}
             [] Pool = "c" -> {V1a}
-KSet   == CASE Pool = "a" -> {"k1"} [] Pool = "b" -> {"k1", "k2"} [] Pool = "c" -> {"k1", "k3"}
+            [] Pool = "d" -> {V1a, V2a, V2c}
+KSet   == CASE Pool = "a" -> {"k1"} [] Pool = "b" -> {"k1", "k2"} [] Pool = "c" -> {"k1", "k3"} [] Pool = "d" -> {"k4"}
+(* pool d: VRF lifecycle while the VPN NLRI the VRF originates is also learned from the PEs *)
+PEon   == Pool = "d"
 
 Init == MInit([defer |-> Defer, addpath |-> FALSE]) /\ nev = 0
 
@@ -30,6 +34,9 @@ Ev == nev < MaxEvents /\ nev' = nev + 1
 Next ==
   /\ Ev
   /\ \/ \E p \in {"N1", "N2"} : MUp(p) \/ MDown(p)
+     \/ (PEon /\ (MUp("N3") \/ MDown("N3")))
+     \/ (PEon /\ \E s \in RtSets : \E lp \in {200, 50} : MVAnn(PRoute(s, 1, lp)))
+     \/ (PEon /\ nin # {} /\ MVWd(PRoute({}, 0, 0)))
      \/ (HasVrf(CeVrf) /\ \E d \in CeDumps : MCeUp(d)) \/ MCeDown
      \/ \E k \in KSet : \E s \in RtSets : MVAnn(VRoute(k, s, 1))
      \/ \E k \in KSet : nin # {} /\ MVWd(VRoute(k, {}, 0))
